@@ -1,4 +1,5 @@
 import TongoProofs.Lemmas.BocSpec
+import TongoProofs.Lemmas.BocTagInv
 /-! Hoare triples for every stage of the bag-of-cells reader: no stage panics, every stage allocates in proportion
 to the bytes it is given, and what it returns satisfies the invariants the next stage needs. -/
 namespace Tongo.Boc
@@ -89,7 +90,7 @@ theorem setTopUpped_spec (arr : Bytes) (fulfilled : Bool) :
   unfold setTopUpped
   by_cases h : (fulfilled || arr.isEmpty) = true
   · simp only [h, if_true]
-    refine .inr ⟨_, rfl, by rw [bytesToBits_length]; omega, ?_, by rw [bytesToBits_length]; omega⟩
+    refine .inr ⟨_, rfl, by have := bytesToBits_length arr; omega, ?_, by have := bytesToBits_length arr; omega⟩
     intro hf hne
     simp only [Bool.or_eq_true, List.isEmpty_iff] at h
     rcases h with h | h
@@ -378,6 +379,8 @@ structure RawOK (c : RawCell) : Prop where
   ty_lt : c.ty < 256
   refs_le : c.refs.length ≤ 7
   pruned : c.ty = tyPruned → 2 + LevelMask.hashIndex c.mask * (hashSize + depthSize) ≤ (c.bits.length + 7) / 8
+  /-- an exotic cell carries its type in its first data byte -/
+  exotic : c.ty ≠ 0 → (Bits.toppedUp c.bits).head? = some (UInt8.ofNat c.ty)
 
 theorem parseCellBody_spec (d1 d2 : Nat) (cd0 : Bytes) (refSize : Nat) (s : Nat) (hr : refSize ≤ 4)
     (hd1lt : d1 < 256) (hd2lt : d2 < 256) :
@@ -414,21 +417,30 @@ theorem parseCellBody_spec (d1 d2 : Nat) (cd0 : Bytes) (refSize : Nat) (s : Nat)
     rw [mulI_nat _ _ (by unfold two63; omega), addI_nat _ _ (by unfold two63; omega)] at hl
     have hl : d2 / 2 + d2 % 2 + refSize * (d1 % 8) ≤ cd.length := (lenLt_nat_false _ _).1 (by simpa using hl)
     apply spec_bind
-    apply spec_mono (Q := fun (ty : Nat) s' => s' = s1 ∧ ty < 256) (E := fun s' => s' = s1)
+    apply spec_mono (Q := fun (ty : Nat) s' => s' = s1 ∧ ty < 256 ∧
+        (ty ≠ 0 → 1 ≤ d2 / 2 + d2 % 2 ∧ ∃ b : UInt8, cd.head? = some b ∧ b.toNat = ty)) (E := fun s' => s' = s1)
     · apply spec_ite
       · intro _
         apply spec_ite
         · intro _; exact spec_fail rfl
         intro hd
-        obtain ⟨t, ht, _⟩ := readN_ok 1 cd 0 (by omega) (by unfold two64; omega)
-        apply spec_bind
-        apply spec_lift_ok ht
-        apply spec_pure
-        exact ⟨rfl, Nat.mod_lt _ (by omega)⟩
+        cases cd with
+        | nil => simp at hl; omega
+        | cons b rest =>
+          apply spec_bind
+          apply spec_lift_ok (a := b.toNat) (by
+            simp only [readN]
+            congr 1
+            have := b.toNat_lt
+            unfold two64; omega)
+          apply spec_pure
+          have hb := b.toNat_lt
+          refine ⟨rfl, Nat.mod_lt _ (by omega), fun _ => ⟨by omega, b, rfl, ?_⟩⟩
+          exact (Nat.mod_eq_of_lt hb).symm
       · intro _
         apply spec_pure
-        exact ⟨rfl, by omega⟩
-    · rintro ty s2 ⟨hs2, hty⟩
+        exact ⟨rfl, by omega, fun h => absurd rfl h⟩
+    · rintro ty s2 ⟨hs2, hty, hexo⟩
       subst hs2
       apply spec_bind
       apply spec_alloc
@@ -459,7 +471,8 @@ theorem parseCellBody_spec (d1 d2 : Nat) (cd0 : Bytes) (refSize : Nat) (s : Nat)
         apply spec_bind
         apply spec_lift_ok hrefs
         apply spec_pure
-        refine ⟨⟨?_, ?_, hty, ?_, ?_⟩, ?_, ?_⟩
+        have hinv := setTopUpped_inv _ _ _ hb
+        refine ⟨⟨?_, ?_, hty, ?_, ?_, ?_⟩, ?_, ?_⟩
         · show bits.length ≤ 1023
           by_cases hf : d2 % 2 > 0
           · have := hb2 (by simp [hf]) (by omega)
@@ -474,6 +487,18 @@ theorem parseCellBody_spec (d1 d2 : Nat) (cd0 : Bytes) (refSize : Nat) (s : Nat)
           have : ¬ (d2 / 2 + d2 % 2 < 2 + LevelMask.hashIndex (d1 / 32) * (hashSize + depthSize)) := by
             intro hc; exact hpr ⟨hp, hc⟩
           omega
+        · intro hne
+          show (Bits.toppedUp bits).head? = some (UInt8.ofNat ty)
+          obtain ⟨h1, b, hbh, hbt⟩ := hexo hne
+          rw [hinv]
+          cases cd with
+          | nil => simp at hbh
+          | cons x rest =>
+            simp only [List.head?_cons, Option.some.injEq] at hbh
+            subst hbh
+            have : d2 / 2 + d2 % 2 = (d2 / 2 + d2 % 2 - 1) + 1 := by omega
+            rw [this, List.take_succ_cons, List.head?_cons, ← hbt]
+            simp
         · simp only [List.length_drop]; omega
         · simp only [List.length_drop]
           unfold szCell szUint
@@ -669,6 +694,10 @@ def DepthOK (t : Table) : Prop :=
 def Sound (t : Table) (roots : List Nat) : Prop :=
   (∀ i (h : i < t.size), RowOK t.size i t[i]) ∧ (∀ r ∈ roots, r < t.size) ∧ DepthOK t
 
+/-- every exotic row carries its type in its first data byte -/
+def ExoRows (t : Table) : Prop :=
+  ∀ i (h : i < t.size), t[i].ty ≠ 0 → (Bits.toppedUp t[i].bits).head? = some (UInt8.ofNat t[i].ty)
+
 theorem toInt_u32 (x : Nat) (h : x < 4294967296) : (toInt x).toNat = x := by
   rw [toInt_small x (by unfold two63; omega)]; simp
 
@@ -691,7 +720,7 @@ theorem mul296 (c l : Nat) (h : 2 * c ≤ l) : 552 * c ≤ 276 * l := by
   exact this
 
 theorem parseBocM_spec (boc : Bytes) (hb : boc.length < two63) :
-    Spec (parseBocM boc) 0 (fun r s' => Sound r.1 r.2 ∧ s' ≤ 317 * boc.length + 8)
+    Spec (parseBocM boc) 0 (fun r s' => (Sound r.1 r.2 ∧ ExoRows r.1) ∧ s' ≤ 317 * boc.length + 8)
       (fun s' => s' ≤ 317 * boc.length + 8) := by
   unfold parseBocM
   apply spec_bind
@@ -736,7 +765,13 @@ theorem parseBocM_spec (boc : Bytes) (hb : boc.length < two63) :
         · apply spec_lift_ok hrok
           apply spec_pure
           obtain ⟨hdsz, hpall⟩ := hp
-          refine ⟨⟨?_, ?_, ?_⟩, by omega⟩
+          refine ⟨⟨⟨?_, ?_, ?_⟩, ?_⟩, by omega⟩
+          rotate_left 3
+          · intro i hi
+            simp only [Array.size_map] at hi
+            have hraw : RawOK cs.toArray[i] := hall _ (by simp)
+            simp only [Array.getElem_map]
+            exact hraw.exotic
           · intro i hi
             simp only [Array.size_map] at hi
             have hraw : RawOK cs.toArray[i] := hall _ (by simp)
